@@ -50,6 +50,8 @@ DESIGN = {
 OWN = {"C08": "CtxPrompt", "C09": "NoStrandedCall NoLockWedge", "C10": "NoStrandedCall", "C12": "CloseTerminates"}
 # free workloads: (runs, goroutines, calls per goroutine)
 M3 = {"quick": {"C09": (3, 6, 40), "C08": (2, 6, 30)}, "thorough": {"C09": (30, 8, 80), "C08": (15, 8, 60)}}
+# free workloads while servers crash and restart at random (runs, goroutines, calls)
+M3F = {"quick": {"C09": (6, 6, 40), "C10": (8, 6, 40)}, "thorough": {"C09": (60, 8, 60), "C10": (80, 8, 60)}}
 REPS = {"quick": 1, "thorough": 5}
 LIFE_TCFG = "SPECIFICATION TSpec\nPOSTCONDITION Accepted\nCHECK_DEADLOCK FALSE\n"
 RE_BAD = re.compile(r'<<"BAD", (\d+), (\d+), "(\w+)">>')
@@ -101,6 +103,12 @@ def check(prop, tier, seed, replay):
         devs = sorted(k["key"] for k in opens)
         if replay:
             rp = json.load(open(replay))
+            if rp.get("scenario") == "m3":
+                if check_prog.m3_replay(prop, rp, work, (6, 6, 40)):
+                    log("VIOLATION property=%s replay=%s" % (prop, replay))
+                    return 1
+                log("replay accepted")
+                return 0
             trace = os.path.join(work, "life.ndjson")
             run_life(prop, trace, os.path.join(work, "st.json"), only=rp["scenario"])
             bad, _, _ = validate_life(trace, work)
@@ -180,32 +188,32 @@ def check(prop, tier, seed, replay):
         # 3. free workloads with cancellations at arbitrary instants
         m3calls = 0
         if prop in M3[tier]:
-            runs, gor, calls = M3[tier][prop]
-            mt = os.path.join(work, "m3.ndjson")
-            p = run([os.path.join(BUILD, "drive"), "m3", "-out", mt, "-stats", os.path.join(work, "m3.json"), "-seed",
-                     str(seed), "-runs", str(runs), "-goroutines", str(gor), "-calls", str(calls), "-cancel", "any",
-                     "-alphabet", "routing"], timeout=3000, check=False)
-            if p.returncode != 0:
-                raise Infra("m3 driver failed:\n" + p.stdout[-3000:])
-            log(p.stdout.strip())
-            m3calls = json.load(open(os.path.join(work, "m3.json")))["calls"]
-            b3, secs, ts = check_prog.validate(mt, "RoutingTrace", check_prog.FIFO_TCFG, 4, work)
+            m3calls, b3, ts, recs = check_prog.m3_run(prop, work, seed, M3[tier][prop], False)
             tstates += ts
-            for t, ev, rec in b3[:3]:
+            for rec in recs[:3]:
                 path = next_replay_path(prop)
-                json.dump({"property": prop, "scenario": "m3", "seed": seed, "rejected_event": ev, "rejected": rec},
-                          open(path, "w"), indent=1)
+                json.dump(rec, open(path, "w"), indent=1)
+                reported.append(path)
+        m3fcalls = 0
+        if prop in M3F[tier]:
+            m3fcalls, b3, ts, recs = check_prog.m3_run(prop, work, seed, M3F[tier][prop], True, name="m3f")
+            tstates += ts
+            for rec in recs[:3]:
+                path = next_replay_path(prop)
+                json.dump(rec, open(path, "w"), indent=1)
                 reported.append(path)
         samples = [json.loads(x) for x in lines[:6]]
         cov = {"states": states, "transitions": trans, "traces_validated_against_impl": nscen - len(bad),
-               "evaluations": nscen + m3calls, "distinct_nontrivial": nscen,
+               "evaluations": nscen + m3calls + m3fcalls, "distinct_nontrivial": nscen,
                "rule": "scenarios = every scripted lifecycle scenario of %s x every call kind (rpc, qc, async, corr, "
                        "corrstream, ucast/mcast with and without send-waiting), %d repetition(s); each reaches an "
                        "interleaving exhibited by TLC on Channel.tla with gates/faults; all are non-trivial (a context "
                        "end, crash, restart or Close inside the window of a call); plus %d calls of free workloads with "
-                       "cancellations at arbitrary instants" % (prop, REPS[tier], m3calls),
+                       "cancellations at arbitrary instants and %d calls of free workloads during which servers crash and "
+                       "restart at random (every call must return, the tables must be empty at the end, and a final "
+                       "all-node quorum call must succeed)" % (prop, REPS[tier], m3calls, m3fcalls),
                "samples": samples, "design_level": design, "deviations_enabled": devs, "trace_states": tstates,
-               "m3_calls": m3calls, "unconfirmed_rejections": unconfirmed}
+               "m3_calls": m3calls, "m3_fault_calls": m3fcalls, "unconfirmed_rejections": unconfirmed}
         write_evidence(prop, tier, seed, "model_checking", cov, time.time() - t0, len(reported),
                        ["liveness is read as safety over quiescent states: no library step enabled (model) / no library "
                         "event for the quiescence period (real runs); every gorums timer in the scenarios is far below "
